@@ -45,6 +45,26 @@ def worker(case):
             if other is not None:
                 other.connect_pin(p_)
                 nq += judge(n, s, tag, probs, ":after-reconnect")[1]
+    if len(case) > 2 and case[2] == "edited-by-handle":
+        # the same two edits on an instance pin, named each time through an equal handle built from
+        # (instance, inner pin) instead of the stored pin object
+        top = n.top_instance.reference
+        cands = [(w_, p_) for d_ in [top] + [x.reference for x in top.children if x.reference is not None and x.reference.cables]
+                 for c_ in d_.cables for w_ in c_.wires for p_ in w_.pins if isinstance(p_, s.OuterPin)]
+        for w_, p_ in cands[:1] + cands[-1:]:
+            if p_.wire is not w_:
+                continue
+            handle = s.OuterPin.from_instance_and_inner_pin(p_.instance, p_.inner_pin)
+            try:
+                w_.disconnect_pin(handle)
+                nq += judge(n, s, tag, probs, ":after-disconnect-by-handle")[1]
+                other = next((x for c_ in w_.cable.definition.cables for x in c_.wires if x is not w_), None)
+                if other is not None:
+                    other.connect_pin(s.OuterPin.from_instance_and_inner_pin(p_.instance, p_.inner_pin))
+                    nq += judge(n, s, tag, probs, ":after-reconnect-by-handle")[1]
+            except Exception as ex:
+                # a connected instance pin taken off its wire / a free one put on a wire: nothing to refuse
+                probs.append(("trace-or-edit-raised:by-handle:%s" % type(ex).__name__, "%s: %r" % (tag, ex)))
     return {"key": key, "nontrivial": spans[0], "outcome": "ok", "problems": list(dict.fromkeys(probs)), "transitions": nq}
 
 
@@ -157,6 +177,7 @@ def cases(tier):
     for desc in design.family_hier(tier, variants=("plain",)):
         if tier == "thorough" or desc[0] in ("K1-chain2", "K8-bus") or sum(desc[1]) % 9 == 0:
             out.append((desc, "asc", "edited"))
+            out.append((desc, "asc", "edited-by-handle"))
     out += [(desc, order) for desc in design.family_hier(tier, variants=("plain", "dangling-nets")) for order in core.ORDER_VARIANTS]
     return out
 
